@@ -95,7 +95,19 @@ def run_case(i, seed, tier):
     cfg = g.cfg(index=i + seed * 31, require=lambda c: c.joliet is not None)
     h = common.History(cfg, cs, ['std', 'churn', 'grow', 'links'][i % 4], max_size=4000)
     n_ = g.rng.choice([6, 15, 30, 50])
-    if i % 6 == 3:
+    if i % 10 == 7:
+        # Joliet directories filled exactly / growing and shrinking around subdirectories
+        which = ['joliet-exact-fill', 'shrink-subdir', 'joliet-exact-fill', 'grow-subdir'][(i // 10) % 4]
+        scfg, sops = common.special_layout(g, which)
+        if not scfg.joliet:
+            scfg, sops = common.special_layout(g, 'joliet-exact-fill')
+        h.sess.close()
+        cfg = scfg
+        h = common.History(cfg, cs, 'std', max_size=4000)
+        for op in sops:
+            h.apply(op)
+        counters['special_layouts'] = 1
+    elif i % 6 == 3:
         # edits continued on an object that opened the image mastered so far
         h.extend(n_ // 2)
         counters['reopened_histories'] = 1 if h.reopen(reuse=(i % 2 == 1)) else 0
